@@ -53,12 +53,20 @@ def materialize_defaults(value: Any) -> None:
   def traverse(node, state: daglish.State):
     if isinstance(node, config.Buildable):
       parameters = node.__signature_info__.parameters.values()
+      positional_gap = False  # An earlier positional-only argument is unset.
       for index, arg in enumerate(parameters):
         if arg.default is arg.empty:
+          if (
+              arg.kind == arg.POSITIONAL_ONLY
+              and index not in node.__arguments__
+          ):
+            positional_gap = True
           continue
         if arg.kind == arg.POSITIONAL_ONLY:
-          # Positional-only arguments are stored (and set) by index.
-          if index not in node.__arguments__:
+          # Positional-only arguments are stored (and set) by index. A value
+          # cannot be passed after an unset positional-only argument (e.g. in
+          # a Partial), so a default following such a gap stays implicit.
+          if index not in node.__arguments__ and not positional_gap:
             node[index] = arg.default
         elif arg.name not in node.__arguments__:
           setattr(node, arg.name, arg.default)
